@@ -24,7 +24,13 @@ func (SQLResult) RowsAffected() (int64, error) { return 0, nil }
 var (
 	sqlHookMu sync.Mutex
 	sqlHookFn func(op, query string, args []any) error
+	sqlTxN    int // transactions begun so far
+	sqlCur    int // transaction the running hook call belongs to (0: none)
 )
+
+// SQLTx reports, inside the hook, which transaction the operation belongs to:
+// 1, 2, ... in order of Begin, 0 for a statement outside any transaction.
+func SQLTx() int { return sqlCur }
 
 // SetSQLHook installs the driver-level hook. ops: "begin", "tx.exec",
 // "exec", "commit", "rollback".
@@ -34,9 +40,10 @@ func SetSQLHook(f func(op, query string, args []any) error) {
 	sqlHookMu.Unlock()
 }
 
-func sqlCallHook(op, q string, args []any) error {
+func sqlCallHook(op, q string, args []any, tx int) error {
 	sqlHookMu.Lock()
 	defer sqlHookMu.Unlock()
+	sqlCur = tx
 	if sqlHookFn == nil {
 		return errors.New("zzfake: no hook installed")
 	}
@@ -47,17 +54,24 @@ type fakeDriver struct{}
 
 func (fakeDriver) Open(string) (driver.Conn, error) { return &fakeConn{}, nil }
 
-type fakeConn struct{ inTx bool }
+type fakeConn struct {
+	inTx bool
+	tx   int
+}
 
 func (c *fakeConn) Prepare(string) (driver.Stmt, error) {
 	return nil, errors.New("zzfake: Prepare not supported")
 }
 func (c *fakeConn) Close() error { return nil }
 func (c *fakeConn) Begin() (driver.Tx, error) {
-	if err := sqlCallHook("begin", "", nil); err != nil {
+	sqlHookMu.Lock()
+	sqlTxN++
+	id := sqlTxN
+	sqlHookMu.Unlock()
+	if err := sqlCallHook("begin", "", nil, id); err != nil {
 		return nil, err
 	}
-	c.inTx = true
+	c.inTx, c.tx = true, id
 	return &fakeTx{c}, nil
 }
 func (c *fakeConn) ExecContext(ctx context.Context, q string, nv []driver.NamedValue) (driver.Result, error) {
@@ -65,11 +79,11 @@ func (c *fakeConn) ExecContext(ctx context.Context, q string, nv []driver.NamedV
 	for k := range nv {
 		args[k] = nv[k].Value
 	}
-	op := "exec"
+	op, id := "exec", 0
 	if c.inTx {
-		op = "tx.exec"
+		op, id = "tx.exec", c.tx
 	}
-	if err := sqlCallHook(op, q, args); err != nil {
+	if err := sqlCallHook(op, q, args, id); err != nil {
 		return nil, err
 	}
 	return SQLResult{}, nil
@@ -77,8 +91,8 @@ func (c *fakeConn) ExecContext(ctx context.Context, q string, nv []driver.NamedV
 
 type fakeTx struct{ c *fakeConn }
 
-func (t *fakeTx) Commit() error   { t.c.inTx = false; return sqlCallHook("commit", "", nil) }
-func (t *fakeTx) Rollback() error { t.c.inTx = false; return sqlCallHook("rollback", "", nil) }
+func (t *fakeTx) Commit() error   { t.c.inTx = false; return sqlCallHook("commit", "", nil, t.c.tx) }
+func (t *fakeTx) Rollback() error { t.c.inTx = false; return sqlCallHook("rollback", "", nil, t.c.tx) }
 
 func init() { sql.Register("zzfake", fakeDriver{}) }
 
@@ -89,5 +103,13 @@ func OpenFakeDB() *sql.DB {
 		panic(err)
 	}
 	db.SetMaxOpenConns(1)
+	return db
+}
+
+// OpenFakeDBConns opens a handle whose pool holds up to n connections, so that
+// a transaction begun while another one is open gets a connection of its own.
+func OpenFakeDBConns(n int) *sql.DB {
+	db := OpenFakeDB()
+	db.SetMaxOpenConns(n)
 	return db
 }
